@@ -318,6 +318,33 @@ func runC11(c *mon.Ctx) {
 						}
 					}
 				}
+				if t.StateRes != 1 {
+					// the same lists handed over as two windows of one array (what a caller that split one slice has)
+					b2 := gmsl.ResolveStateConflictsV2(conf, unconf, authList, userIDForSender, noRej)
+					both := append(append(make([]gmsl.PDU, 0, len(conf)+len(unconf)), conf...), unconf...)
+					got := gmsl.ResolveStateConflictsV2(both[:len(conf)], both[len(conf):], authList, userIDForSender, noRej)
+					c.Count("presentation|deprecated-v2-shared-array")
+					if resultKey(got) != resultKey(b2) {
+						c.Failf(fmt.Sprintf("order-dependence:alg%d:deprecated-ResolveStateConflictsV2:shared-array", t.StateRes), "v%s: ResolveStateConflictsV2 returns a different state when conflicted and unconflicted are adjacent windows of one array\n base: %v\n now:  %v", ver, short(idsOf(b2)), short(idsOf(got)))
+					}
+					for i, p := range unconf {
+						if both[len(conf)+i] != p {
+							c.Failf(fmt.Sprintf("order-dependence:alg%d:deprecated-ResolveStateConflictsV2:callers-list-overwritten", t.StateRes), "v%s: ResolveStateConflictsV2 overwrote element %d of the caller's unconflicted list", ver, i)
+							break
+						}
+					}
+				}
+				// the smallest room: every state set is just the create event, nothing in the auth chain
+				{
+					only := []gmsl.PDU{sc.s.create}
+					if got, err := gmsl.ResolveConflictsNew(ver, [][]gmsl.PDU{only, only}, nil, userIDForSender, noRej); err != nil || resultKey(got) != resultKey(only) {
+						c.Failf(fmt.Sprintf("wellformed:equal-sets-not-returned:alg%d:create-only", t.StateRes), "v%s: ResolveConflictsNew of two copies of {create} returns %v, %v", ver, short(idsOf(got)), err)
+					}
+					if got, err := gmsl.ResolveConflicts(ver, []gmsl.PDU{sc.s.create, sc.s.create}, nil, userIDForSender, noRej); err != nil || resultKey(got) != resultKey(only) {
+						c.Failf(fmt.Sprintf("wellformed:equal-sets-not-returned:alg%d:create-only:deprecated", t.StateRes), "v%s: deprecated ResolveConflicts of two copies of {create} returns %v, %v", ver, short(idsOf(got)), err)
+					}
+					c.Count("create_only_rooms")
+				}
 				// orderings over the room's events
 				allEvents := append([]gmsl.PDU{}, sc.authAll...)
 				for i := 0; i < 4; i++ {
